@@ -182,10 +182,33 @@ def impl_key(fs, ns):
     return tuple(out)
 
 
-def replay_history(hist, ns, full_last=True):
-    """-> (violation or None, fs, model, index of failing step)"""
-    fs = F.new_set(ns)
+def loaded_pair(ns):
+    """two sets loaded from ONE parse of a script holding an enabled filter a (d1) and a disabled filter b (d2), and the model of one"""
+    fs0 = F.new_set(ns)
     model = F.RefFilters()
+    for n, d in (("a", "d1"), ("b", "d2")):
+        c, a, mt = F.DEFS[d]
+        fs0.addfilter(n, list(c), list(a), mt)
+        model.add(n, d)
+    fs0.disablefilter("b")
+    model.disable("b")
+    p = ns.parser.Parser()
+    assert p.parse(F.render(fs0)) is True, p.error
+    fs, twin = F.new_set(ns), F.new_set(ns)
+    fs.from_parser_result(p)
+    twin.from_parser_result(p)
+    return fs, twin, model
+
+
+def replay_history(hist, ns, full_last=True, loaded=False):
+    """-> (violation or None, fs, model, index of failing step)"""
+    twin = None
+    if loaded:
+        fs, twin, model = loaded_pair(ns)
+        twin_text = F.render(twin)
+    else:
+        fs = F.new_set(ns)
+        model = F.RefFilters()
     for i, ev in enumerate(hist):
         r = apply(ev, fs, model, ns)
         if r is None:
@@ -203,6 +226,8 @@ def replay_history(hist, ns, full_last=True):
                 bad = check_state(fs, model, ns, light=not (full_last and i == len(hist) - 1))
             except Exception as e:  # noqa
                 bad = ("exception", "observing the set raised %s: %s" % (type(e).__name__, str(e)[:100]))
+        if bad is None and twin is not None and F.render(twin) != twin_text:
+            bad = ("other-set-changed", "a second set loaded from the same parse result, on which nothing was called, now renders differently")
         if bad:
             return (bad, fs, model, i)
     return (None, fs, model, len(hist))
@@ -212,10 +237,11 @@ def ev_label(ev):
     return "%s(%s)" % (ev[0], ",".join(str(x) for x in ev[1:]))
 
 
-def mkviol(bad, hist, i, prop="C12"):
+def mkviol(bad, hist, i, prop="C12", loaded=False):
     ev = hist[i] if i < len(hist) else hist[-1]
-    prev = hist[i - 1][0] if i > 0 else "start"
-    return {"property": prop, "engine": "factory", "signature": [prop, ev[0] + ("/" + ev[2][0] if ev[0] == "replace" else ""), "after:" + prev, bad[0]],
+    prev = hist[i - 1][0] if i > 0 else ("loaded" if loaded else "start")
+    return {"property": prop, "engine": "factory", "loaded": loaded,
+            "signature": [prop, ev[0] + ("/" + ev[2][0] if ev[0] == "replace" else ""), "after:" + prev, bad[0]],
             "what": "history %s: %s" % (" ; ".join(ev_label(e) for e in hist[:i + 1]), bad[1]),
             "case": {"history": [list(e) if not isinstance(e, list) else e for e in _jsonable(hist[:i + 1])]},
             "witness": " ; ".join(ev_label(e) for e in hist[:i + 1]), "observed": bad[1][:200]}
@@ -258,16 +284,16 @@ def task(t):
     viols = []
     n = 0
     states = set()
-    if mode == "all":
+    if mode in ("all", "loaded"):
         # every sequence of length <= depth starting with `first`, no dedup (prefix-closed: stop at first violation)
         def rec(hist):
             nonlocal n
-            bad, fs, model, i = replay_history(hist, ns)
+            bad, fs, model, i = replay_history(hist, ns, loaded=(mode == "loaded"))
             n += 1
             if bad == "skip":
                 return
             if bad:
-                viols.append(mkviol(bad, hist, i))
+                viols.append(mkviol(bad, hist, i, loaded=(mode == "loaded")))
                 return
             states.add((model.state(), impl_key(fs, ns)))
             if len(hist) < depth:
@@ -317,6 +343,8 @@ def run(tier, seed):
     all_depth = 3 if tier == "quick" else 4
     bfs_depth = 6 if tier == "quick" else 12
     tasks = [("all", i, all_depth) for i in range(len(evs))] + [("bfs", i, bfs_depth) for i in range(len(evs)) if evs[i][0] == "add"]
+    # the same events on a set loaded from a parse result that a second set shares
+    tasks += [("loaded", i, all_depth - 1) for i in range(len(evs))]
     res = pool.run_tasks("checks.c12:task", tasks)
     n = sum(r["n"] for r in res)
     viols = []
@@ -339,8 +367,9 @@ def run(tier, seed):
 def replay(payload):
     ns = seams.load()
     hist = _unjson(payload["case"]["history"])
-    bad, fs, model, i = replay_history(hist, ns)
+    loaded = bool(payload.get("loaded"))
+    bad, fs, model, i = replay_history(hist, ns, loaded=loaded)
     if bad and bad != "skip":
-        v = mkviol(bad, hist, i)
+        v = mkviol(bad, hist, i, loaded=loaded)
         return [v]
     return []
